@@ -1395,6 +1395,19 @@ pub fn gen_c16(out: &mut Out, rng: &mut Rng, thorough: bool) {
                 let tid2 = if b == 0 { 0 } else { 1 };
                 let reply2 = frame(kind, tid2, unit, &[0x03, 0x02, 0xCA, 0xFE]);
                 let r2 = format!("d{}", hex_raw(&reply2));
+                // what the late reply carries: the answer to call 1, an exception for it, or –
+                // under call 1's header – what would answer call 2: a reply or an exception of
+                // call 2's function
+                let reply1 = if late {
+                    match rng.below(5) {
+                        0 => frame(kind, 0, unit, &[spec::request_bytes(&req1).unwrap()[0] | 0x80, rng.exc_code()]),
+                        1 => frame(kind, 0, unit, &[0x83, rng.exc_code()]),
+                        2 => frame(kind, 0, unit, &[0x03, 0x02, 0xDE, 0xAD]),
+                        _ => reply1.clone(),
+                    }
+                } else {
+                    reply1.clone()
+                };
                 let line = format!(
                     "cli {kind} {} | call {} b={b} w={}{f} r={} | call {} r={}",
                     hex8(unit),
@@ -1487,7 +1500,11 @@ pub fn mon_c16(out: &mut Out, l: &str, r: &str) {
                 out.check(got2.starts_with("hm "), || format!("late reply to the abandoned request was not reported as a header mismatch: `{got2}`"), l);
             }
         }
-        out.check(!got2.starts_with("ok ") || got2 == "ok RHR:CAFE", || format!("call after an abandoned call returned a foreign answer: `{got2}`"), l);
+        out.check(
+            !(got2.starts_with("ok ") || got2.starts_with("exc ")) || got2 == "ok RHR:CAFE",
+            || format!("call after an abandoned call returned a foreign answer: `{got2}`"),
+            l,
+        );
     }
 }
 
@@ -1753,6 +1770,11 @@ pub fn gen_c01(out: &mut Out, rng: &mut Rng, thorough: bool) {
         for (op, _) in super::netgen::typed_boundary_ops(rng) {
             monitor_line(out, &format!("cli {kind} {} | typed {}", hex8(rng.u8()), op.tok()));
         }
+    }
+    // every typed method with every combination of border values for its scalar arguments
+    for (i, op) in super::netgen::typed_border_products(rng).iter().enumerate() {
+        let kind = if i % 2 == 0 { "tcp" } else { "rtu" };
+        monitor_line(out, &format!("cli {kind} {} | typed {}", hex8(rng.unit()), op.tok()));
     }
     let n = if thorough { 100_000 } else { 5_000 };
     for i in 0..n {
